@@ -1,7 +1,8 @@
 #!/venv/bin/python
 """atheris target: python target.py <mode> <findings.jsonl> [libFuzzer args...]
 
-mode: query-text | query-struct | pointer-text
+mode: query-text | query-struct | pointer-text (C06 outcome-validity oracle)
+      c10-text (C10 string-form round trip oracle) | c04-pointer (C04 RFC 6901 reference oracle)
 The semantic oracle (C06's outcome-validity predicate) sits inside the target.  A finding does not
 stop the campaign: it is written once per signature to the findings file and the search continues.
 """
@@ -85,8 +86,43 @@ def make_struct():
     return t.hypothesis.fuzz_one_input
 
 
+def one_c10_text(data):
+    from vf.checks import c10
+    fdp = atheris.FuzzedDataProvider(data)
+    text = fdp.ConsumeUnicodeNoSurrogates(300)
+    execs[0] += 1
+    c10.judge(stats, text, [c10.PANEL[0], c10.PANEL[1], c10.PANEL[5]] + c10.XDOCS, "atheris")
+    flush()
+
+
+C04_DOCS = None
+
+
+def one_c04_pointer(data):
+    from vf.checks import c04
+    global C04_DOCS
+    if C04_DOCS is None:
+        C04_DOCS = c04.universe()
+    fdp = atheris.FuzzedDataProvider(data)
+    doc = C04_DOCS[fdp.ConsumeIntInRange(0, len(C04_DOCS) - 1)]
+    ntok = fdp.ConsumeIntInRange(0, 3)
+    toks = []
+    for _ in range(ntok):
+        if fdp.ConsumeBool():
+            toks.append(c04.T[fdp.ConsumeIntInRange(0, len(c04.T) - 1)])
+        else:
+            toks.append(fdp.ConsumeUnicodeNoSurrogates(6))
+    execs[0] += 1
+    c04.judge(stats, doc, toks, "atheris")
+    flush()
+
+
 if mode == "query-text":
     atheris.Setup(argv, one_query_text)
+elif mode == "c10-text":
+    atheris.Setup(argv, one_c10_text)
+elif mode == "c04-pointer":
+    atheris.Setup(argv, one_c04_pointer)
 elif mode == "pointer-text":
     atheris.Setup(argv, one_pointer_text)
 else:
